@@ -131,3 +131,16 @@ FUNCS = {
     "K.Inner.inner_method": K.Inner.inner_method, "K.Inner.inner_cmeth": K.Inner.inner_cmeth.__func__,
     "K.Inner.Deep.deep_method": K.Inner.Deep.deep_method, "Sub.method": Sub.method, "Sub.own": Sub.own,
 }
+
+
+# user classes named like the builtin types that are not exported by `builtins` under that name (py2-style sentinels)
+class NoneType:
+    pass
+
+
+class mappingproxy:  # noqa: N801
+    pass
+
+
+class NotImplementedType:
+    pass
